@@ -416,7 +416,7 @@ def run(cases, tier, rng):
     san_results = []
     if tier == 'thorough' and os.path.exists(os.path.join(C.SAN, 'builddrv')):
         t = time.time()
-        sub = cases[:min(len(cases), 12000)]
+        sub = cases[:min(len(cases), 30100)]
         san_results = evaluate(sub, san=True)
         C.log('san evaluated %d sessions in %.1fs' % (len(sub), time.time() - t))
     verd, dist, findings, samples = {}, {}, [], []
